@@ -534,6 +534,46 @@ var All = []Prog{
 		k, _, _ := reflect.Select([]reflect.SelectCase{{Dir: reflect.SelectSend, Chan: reflect.ValueOf(make(chan int)), Send: reflect.ValueOf(1)}, {Dir: reflect.SelectDefault}})
 		return out + fmt.Sprint(" ", k)
 	}, []string{"true false xtrue false false ztrue true false 1"}},
+	{"janitor/sleeps-for-ever", func() string {
+		// a background goroutine that never ends must not keep the execution alive (nor count as a deadlock)
+		var n atomic.Int64
+		go func() {
+			for {
+				time.Sleep(time.Millisecond)
+				n.Add(1)
+			}
+		}()
+		done := make(chan bool)
+		go func() { done <- true }()
+		<-done
+		return "done"
+	}, []string{"done"}},
+	{"janitor/ticker-for-ever", func() string {
+		var n atomic.Int64
+		tk := time.NewTicker(time.Millisecond)
+		go func() {
+			for range tk.C {
+				n.Add(1)
+			}
+		}()
+		var mu sync.Mutex
+		mu.Lock()
+		go func() { mu.Unlock() }()
+		mu.Lock()
+		return "done"
+	}, []string{"done"}},
+	{"clock/poll-until-deadline", func() string {
+		start := time.Now()
+		rounds := 0
+		for time.Since(start) < 50*time.Microsecond {
+			rounds++
+		}
+		deadline := time.Now().Add(20 * time.Microsecond)
+		for time.Now().Before(deadline) {
+			time.Sleep(5 * time.Microsecond)
+		}
+		return "done"
+	}, []string{"done"}},
 	{"pool/nil-new", func() string {
 		var p sync.Pool
 		return fmt.Sprint(p.Get())
